@@ -48,7 +48,24 @@ func isIn(x int, l []int) bool {
 // the key is built as a map (what a decoded key is) and handed to New, so that CheckKey — not only KeyFrom — decides
 // about sizes; KeyFrom must agree about acceptance
 func symKey(alg int, k []byte) key.Key {
-	return key.Key{iana.KeyParameterKty: iana.KeyTypeSymmetric, iana.KeyParameterAlg: alg, iana.SymmetricKeyParameterK: append([]byte{}, k...)}
+	// the alg member in the Go kinds a key can hold it in (a literal, a decoded key, the typed constant); which one
+	// is used depends on the key octets only, so that both sides see the same operation
+	var a any = alg
+	sel := len(k)
+	if len(k) > 0 {
+		sel += int(k[0])
+	}
+	switch sel % 4 {
+	case 1:
+		a = int64(alg)
+	case 2:
+		if alg >= 0 {
+			a = uint64(alg)
+		}
+	case 3:
+		a = key.Alg(alg)
+	}
+	return key.Key{iana.KeyParameterKty: iana.KeyTypeSymmetric, iana.KeyParameterAlg: a, iana.SymmetricKeyParameterK: append([]byte{}, k...)}
 }
 
 var errKeyFromDisagrees = fmt.Errorf("keyfrom-disagrees")
